@@ -464,3 +464,18 @@ class SupervisorDataDisableAutorestart:
 
     def modifies(self):
         return []
+
+
+@contract('internal_com.mapper:SupvisorsMapper.filter', props=[])
+class MapperFilter:
+    """read-only: the known Supvisors identifiers designated by the list (identifier, nick identifier or stereotype);
+    every element returned is a key of mapper.instances (the C01/C13 group carries a more precise assumed contract)"""
+    assumed = True
+    raises = ()
+    types = {'identifier_list': 'List[str]'}
+
+    def modifies(self):
+        return []
+
+    def post_known(self, result):
+        return forall(int, lambda k: implies(0 <= k and k < len(result), result[k] in self.instances))
